@@ -42,6 +42,13 @@ def gen_sequences(tier, rng):
         seq = [rng.choice(alphabet) for _ in range(rng.randint(1, 14))]
         fl = rng.choice([('own', 'lex'), ('chain', 'lex'), ('own', 'lexdiff')])
         yield ('lex', fl[0], fl[1], seq, 1, alphabet + [[3], [1, 3]])
+    # look-ups INTERLEAVED with insertions (hits and misses right before an insertion of the same or of another key): a container may not
+    # carry anything from a look-up into the next insertion
+    for r in range(300 if tier == 'quick' else 5000):
+        span = rng.choice([6, 12, 24])
+        seq = [[rng.randrange(span)] for _ in range(rng.randint(2, 16))]
+        fl = rng.choice([('own', 'int'), ('chain', 'lex'), ('own', 'lex'), ('chain', 'lex'), ('own', 'wide')])
+        yield ('interleaved', fl[0], fl[1], seq, 1, ('inline', span))
     big = 10_000 if tier == 'quick' else 300_000
     every = 500 if tier == 'quick' else 20_000
     shapes = {
@@ -64,7 +71,15 @@ def key_s(k):
 
 def ops_of(flavour, cmp, keys, dump_every, probes):
     ops = ['new %s %s' % (flavour, cmp)]
+    inline = None
+    if isinstance(probes, tuple) and probes[0] == 'inline':
+        inline = random.Random(len(keys) * 1000003 + sum(k[0] for k in keys) + probes[1])
+        span = probes[1]
+        probes = [[k] for k in range(-1, span + 1)]
     for i, k in enumerate(keys):
+        if inline is not None:
+            for _ in range(inline.randrange(3)):
+                ops.append('find ' + key_s([inline.randrange(-1, span + 1)]))
         ops.append('ins ' + key_s(k))
         if (i + 1) % dump_every == 0:
             ops += ['dump', 'pdump']
